@@ -183,6 +183,12 @@ class LayoutEval:
         key = (modname, name)
         if key not in self._cache:
             mod = self.repo.module(modname)
+            if self.module_is_dynamic(mod):
+                env = self.module_env(mod)
+                if name not in env:
+                    raise AnalysisError(f"anchor vanished: {modname}:{name}")
+                self._cache[key] = env[name]
+                return self._cache[key]
             exprs = mod.assigns.get(name)
             if not exprs:
                 raise AnalysisError(f"anchor vanished: {modname}:{name}")
@@ -195,6 +201,94 @@ class LayoutEval:
         r = self.repo.resolve_module_name(mod, name)
         return r
 
+    def module_is_dynamic(self, mod):
+        """does the module build layout values with statements (loops, item stores) rather than one expression per name?"""
+        if not hasattr(self, "_dyn"):
+            self._dyn = {}
+        if mod.name not in self._dyn:
+            self._dyn[mod.name] = any(isinstance(st, (ast.For, ast.While)) or (isinstance(st, (ast.Assign, ast.AugAssign)) and any(isinstance(t, ast.Subscript) for t in (st.targets if isinstance(st, ast.Assign) else [st.target])))
+                                      for st in mod.tree.body)
+        return self._dyn[mod.name]
+
+    def module_env(self, mod):
+        """the module's global scope after its top-level statements ran (constant folding): one dict, shared by reference with the
+        closures created while it ran - a lambda in a loop sees the loop variable's final value, as in Python"""
+        if not hasattr(self, "_menv"):
+            self._menv = {}
+        if mod.name in self._menv:
+            return self._menv[mod.name]
+        env = {}
+        self._menv[mod.name] = env
+        self._exec_top(mod.tree.body, mod, env)
+        return env
+
+    def _exec_top(self, body, mod, env):
+        for st in body:
+            if isinstance(st, (ast.Import, ast.ImportFrom, ast.FunctionDef, ast.AsyncFunctionDef, ast.ClassDef, ast.Pass)):
+                continue
+            if isinstance(st, ast.Expr) and isinstance(st.value, ast.Constant):
+                continue
+            if isinstance(st, ast.Assign):
+                v = self.ev(st.value, mod, env)
+                for t in st.targets:
+                    self._store_top(t, v, mod, env)
+                continue
+            if isinstance(st, ast.AnnAssign) and st.value is not None:
+                self._store_top(st.target, self.ev(st.value, mod, env), mod, env)
+                continue
+            if isinstance(st, ast.For):
+                it = self.ev(st.iter, mod, env)
+                if isinstance(it, dict):
+                    it = list(it)
+                if not isinstance(it, (list, tuple, range, str)):
+                    raise AnalysisError(f"module-level loop over a non-literal collection: {norm(st.iter)[:80]} ({mod.name})")
+                for x in it:
+                    self._store_top(st.target, x, mod, env)
+                    self._exec_top(st.body, mod, env)
+                continue
+            if isinstance(st, ast.If):
+                t = self.ev(st.test, mod, env)
+                if not isinstance(t, bool):
+                    raise AnalysisError(f"module-level condition {norm(st.test)[:60]} is not decidable ({mod.name})")
+                self._exec_top(st.body if t else st.orelse, mod, env)
+                continue
+            if isinstance(st, ast.Expr) and isinstance(st.value, ast.Call) and isinstance(st.value.func, ast.Attribute) and st.value.func.attr in ("append", "update", "extend", "setdefault"):
+                recv = self.ev(st.value.func.value, mod, env)
+                args = [self.ev(a, mod, env) for a in st.value.args]
+                if isinstance(recv, list) and st.value.func.attr == "append":
+                    recv.append(args[0])
+                elif isinstance(recv, list) and st.value.func.attr == "extend":
+                    recv.extend(args[0])
+                elif isinstance(recv, dict) and st.value.func.attr == "update" and isinstance(args[0], dict):
+                    recv.update(args[0])
+                elif isinstance(recv, dict) and st.value.func.attr == "setdefault":
+                    recv.setdefault(args[0], args[1] if len(args) > 1 else None)
+                else:
+                    raise AnalysisError(f"module-level statement {norm(st)[:80]} is outside the modelled fragment ({mod.name})")
+                continue
+            if isinstance(st, (ast.Try, ast.With, ast.While, ast.Expr, ast.AugAssign, ast.Delete, ast.Assert, ast.Global)):
+                # statements that do not take part in building layouts are skipped only when they cannot bind a name a layout uses
+                bound = {n.id for n in ast.walk(st) if isinstance(n, ast.Name) and isinstance(n.ctx, ast.Store)}
+                for b in bound:
+                    env.pop(b, None)
+                continue
+
+    def _store_top(self, target, value, mod, env):
+        if isinstance(target, ast.Name):
+            env[target.id] = value
+        elif isinstance(target, (ast.Tuple, ast.List)) and isinstance(value, (list, tuple)) and len(value) == len(target.elts):
+            for t, v in zip(target.elts, value):
+                self._store_top(t, v, mod, env)
+        elif isinstance(target, ast.Subscript):
+            recv = self.ev(target.value, mod, env)
+            key = self.ev(target.slice, mod, env)
+            if isinstance(recv, (dict, list)):
+                recv[key] = value
+            else:
+                raise AnalysisError(f"module-level item store on {norm(target.value)} is outside the modelled fragment ({mod.name})")
+        else:
+            raise AnalysisError(f"module-level assignment target {norm(target)[:60]} is outside the modelled fragment ({mod.name})")
+
     def ev(self, node, mod, local):
         if isinstance(node, ast.Constant):
             return node.value
@@ -204,6 +298,11 @@ class LayoutEval:
             r = self.resolve(mod, node.id)
             if r.kind == "external":
                 return self.external(r.fq)
+            if r.kind == "value" and self.module_is_dynamic(r.mod):
+                env = self.module_env(r.mod)
+                if r.name in env:
+                    return env[r.name]
+                raise AnalysisError(f"{r.mod.name}:{node.id} is not bound after the module's top-level statements")
             if r.kind == "value":
                 if len(r.exprs) != 1:
                     raise AnalysisError(f"{r.mod.name}:{node.id} assigned more than once")
@@ -289,8 +388,16 @@ class LayoutEval:
             raise AnalysisError(f"unmodelled arithmetic in layout: {norm(node)}")
         if isinstance(node, ast.Subscript):
             v = self.ev(node.value, mod, local)
+            if isinstance(v, This):
+                k_ = self.ev(node.slice, mod, local)
+                if isinstance(k_, str):
+                    return v.attr(k_)  # ctx["name"] is ctx.name
+                raise AnalysisError(f"layout expression {norm(node)[:80]}: context subscript with a non-constant key")
             if isinstance(v, dict):
-                return v[self.ev(node.slice, mod, local)]
+                k_ = self.ev(node.slice, mod, local)
+                if k_ not in v:
+                    raise AnalysisError(f"layout expression {norm(node)[:80]}: no entry {k_!r} ({mod.name})")
+                return v[k_]
             c = self.ev(node.slice, mod, local)
             return Con("array", sub=self.as_con(v, node), count=self.num(c), node=node)
         if isinstance(node, ast.Compare) and len(node.ops) == 1:
@@ -348,7 +455,7 @@ class LayoutEval:
         if isinstance(node, ast.Call):
             return self.call(node, mod, local)
         if isinstance(node, ast.Lambda):
-            return Closure(node, dict(local), mod)
+            return Closure(node, local, mod)  # by reference: free variables are looked up when the closure is called
         raise AnalysisError(f"unmodelled layout expression: {norm(node)[:120]} ({mod.name})")
 
     def comprehension(self, node, mod, local):
@@ -381,16 +488,15 @@ class LayoutEval:
             if not isinstance(it, (list, tuple, range, str)):
                 raise AnalysisError(f"layout comprehension over a non-literal collection: {norm(g.iter)[:80]} ({mod.name})")
             for x in it:
-                env2 = dict(env)
-                bind(g.target, x, env2)
+                bind(g.target, x, env)  # the comprehension has ONE scope: a closure made in an iteration sees the variable's last value
                 ok = True
                 for cond in g.ifs:
-                    c = self.ev(cond, mod, env2)
+                    c = self.ev(cond, mod, env)
                     if not isinstance(c, bool):
                         raise AnalysisError(f"layout comprehension: undecidable filter {norm(cond)}")
                     ok = ok and c
                 if ok:
-                    rec(i + 1, env2)
+                    rec(i + 1, env)
 
         rec(0, dict(local))
         if isinstance(node, ast.DictComp):
@@ -420,6 +526,11 @@ class LayoutEval:
         if isinstance(v, Con):
             return v
         raise AnalysisError(f"expected a construct, got {v!r} in {norm(node)[:100]}")
+
+    def lazy_num(self, v):
+        """a length given as a context function is evaluated when the field is parsed, not when the struct is defined (a lambda
+        made in a loop sees the loop variable's final value)"""
+        return v if isinstance(v, Closure) else self.num(v)
 
     def num(self, v):
         if isinstance(v, Closure):
@@ -587,12 +698,12 @@ class LayoutEval:
                 raise AnalysisError("Struct(**kwargs) not modelled")
             return Con("struct", fields=[self.as_con(a, node) for a in args], node=node)
         if n == "Bytes":
-            return Con("bytes", size=self.num(args[0]))
+            return Con("bytes", size=self.lazy_num(args[0]))
         if n == "Padding":
-            return Con("padding", size=self.num(args[0]))
+            return Con("padding", size=self.lazy_num(args[0]))
         if n in ("PaddedString",):
             enc = args[1] if len(args) > 1 else kwargs.get("encoding")
-            return Con("str", size=self.num(args[0]), enc=enc)
+            return Con("str", size=self.lazy_num(args[0]), enc=enc)
         if n == "Seek":
             return Con("seek", to=self.num(args[0]), whence=args[1] if len(args) > 1 else kwargs.get("whence", 0))
         if n == "Computed":
@@ -604,7 +715,7 @@ class LayoutEval:
         if n == "Renamed":
             return Con("renamed", name=args[1], sub=self.as_con(args[0], node), node=node, mod=None)
         if n == "FixedSized":
-            return Con("fixedsized", size=self.num(args[0]), sub=self.as_con(args[1], node), node=node)
+            return Con("fixedsized", size=self.lazy_num(args[0]), sub=self.as_con(args[1], node), node=node)
         if n == "BytesInteger":
             return Con("int", size=self.num(args[0]), name=f"BytesInteger{args[0]}")
         raise AnalysisError(f"construct.{n} is outside the modelled fragment")
@@ -812,7 +923,7 @@ class LayoutEval:
             return pos + count * esize
         if k == "fixedsized":
             # the sub-construct parses from a window of exactly `size` bytes; the stream continues after the window
-            size = self._rebase(c.size, ctx, values, name)
+            size = self._rebase(self.num(c.size), ctx, values, name)
             inner_end = self.walk(c.sub, pos, ctx, out, values, strides, path, chain)
             out.append(Leaf(path=_strip(path) + ("<window>",), kind="window", offset=pos, width=size, base="FixedSized", chain=[], strides=list(strides), inner=inner_end - pos))
             return pos + size
@@ -835,13 +946,13 @@ class LayoutEval:
             out.append(Leaf(path=_strip(path), kind="computed", offset=pos, width=lift(0), base="Computed", chain=chain, strides=list(strides), value=val))
             return pos
         if k in ("int", "bytes", "str", "padding"):
-            size = self._rebase(c.size, ctx, values, name)
+            size = self._rebase(self.num(c.size), ctx, values, name)
             base = {"int": getattr(c, "name", "int"), "bytes": "Bytes", "str": "PaddedString", "padding": "Padding"}[k]
             base_args = {}
             if k == "str":
                 base_args["enc"] = c.enc
             lf = Leaf(path=_strip(path), kind="field", offset=pos, width=size, base=base, base_args=base_args,
-                      chain=chain, strides=list(strides), size_expr=c.size)
+                      chain=chain, strides=list(strides), size_expr=self.num(c.size))
             out.append(lf)
             # the *value* of an integer-valued field is a fresh symbol named by its path
             values[name] = Poly.sym(name)
